@@ -125,7 +125,7 @@ def run(ck, write_baseline=False):
             if e.get("reuse"):
                 sig["parser_reused"] = e["reuse"]
             ck.violation(sig,
-                         {"event": {k: e[k] for k in ("fam", "expect", "res", "parsed", "exc", "text", "in_baseline")}})
+                         {"event": e})
     rejected_ok = [e["fam"] for e in evs if e["expect"] == "accept" and e["res"] == "error"]
     ck.part("scripts", families=len(cases), events=len(evs), accepted=len(accepted_now),
             well_formed_but_rejected_by_pysmt=sorted(set(rejected_ok)), baseline=len(baseline))
